@@ -7,7 +7,9 @@
    characters are ASCII).  Every error (including the recovered panics of the unchecked
    type assertions) ends the whole parse with an error, so only "error" is modelled for
    those; the table after a *successful* parse is modelled exactly, including the io.EOF
-   paths that count as success ("a=", "a.", "a[0]").
+   paths that count as success ("a=", "a.", "a[0]").  After the fix "--set keeps an empty
+   value that ends the input after a list index": when the input ends inside a list item
+   ("a[0].b=", "a[0][1].b=") what was parsed is stored before io.EOF is passed on.
 
    Outside the model (supplied with the case as data): the JSON decoder behind --set-json
    ([jdec]: for the input that remains after "key=", the decoded value and the number of
@@ -355,7 +357,12 @@ with list_item (f : nat) (c : pcfg) (l : list val) (i : Z) (lvl : nat) (s : stri
                       | Some (crt, existed) =>
                           match list_item f' c crt nexti lvl rest1 with
                           | LOk l2 rest2 => match set_index l i (VList l2) with Some l' => LOk l' rest2 | None => LErr end
-                          | LEof l2 => if existed then LEof (set_nth (Z.to_nat i) (VList l2) l) else LEof l
+                          | LEof l2 =>
+                              match l2 with
+                              | _ :: _ =>                                (* input ended inside the nested item: kept *)
+                                  match set_index l i (VList l2) with Some l' => LEof l' | None => LErr end
+                              | [] => if existed then LEof (set_nth (Z.to_nat i) (VList l2) l) else LEof l
+                              end
                           | LErr => LErr
                           | LFuel => LFuel
                           end
@@ -371,7 +378,12 @@ with list_item (f : nat) (c : pcfg) (l : list val) (i : Z) (lvl : nat) (s : stri
                     else (l, [], false) in
                   match key f' c inner lvl rest with
                   | KOk inner' rest1 => match set_index l1 i (VMap inner') with Some l' => LOk l' rest1 | None => LErr end
-                  | KEof inner' => if inplace then LEof (set_nth (Z.to_nat i) (VMap inner') l1) else LEof l1
+                  | KEof inner' =>
+                      match inner' with
+                      | _ :: _ =>                                        (* "a[0].b=" at the end of the input: kept *)
+                          match set_index l1 i (VMap inner') with Some l' => LEof l' | None => LErr end
+                      | [] => if inplace then LEof (set_nth (Z.to_nat i) (VMap inner') l1) else LEof l1
+                      end
                   | KErr => LErr
                   | KFuel => LFuel
                   end
